@@ -20,6 +20,9 @@ GREETING_11 = "greeting-1.1 2 R:64:64:0 R:0:0:0 V221"      # a reader that alrea
 EARLY_NOWAIT = "early-nowait 2 R:32:64:0 R:0:0:0 EN1"      # SendNoWait issued while the query is unanswered
 # C06_example_traffic: 1.1 negotiated, then a request answered with ERROR_MESSAGE/M_UnsupportedVersion
 TRAFFIC_110 = "traffic-110 2 R:32:64:0 R:0:0:0 P=FE110,a,MS,FS,a"
+# C06_example_held_acks: a 1.0.1-only reader sends two KEEPALIVEs and its rejection of the query while it does
+# not read; the second acknowledgement is WRITTEN after the client settled on 1.0.1
+HELD_ACKS = "held-acks 2 E:110 R:0:0:0 D1:2 LA"
 
 
 NEVER_REPLY = set()     # message types this tree never delivers as a reply (probed in run())
@@ -164,6 +167,52 @@ def sessions(tier):
             add(2, a, "R:0:0:0", ["P=" + scr])
             add(2, a, "R:0:0:0", ["K1", "K2", "V212", "P=" + scr])
         add(1, "R:64:64:0", "R:0:0:0", ["P=" + scr])
+    # grid 8 — a reader that stops reading for a while: D1:<n> / D2:<n> = n KEEPALIVEs and then the answer to
+    # the query / the switch are sent while nothing is read; reading resumes when the client has acted on
+    # the answer.  The acknowledgements pile up behind the client's blocked write loop and are WRITTEN after
+    # the answer took effect — after negotiation has ended when it was the last answer.
+    # D1:<pattern>: k = KEEPALIVE, r = one frame read, before the answer: acknowledgements are then taken by the
+    # client's write loop while others are already waiting
+    dsets = [["D1:2"], ["D1:1"], ["D1:kkkr", "LA"], ["D2:2"], ["D1:2", "D2:kkrk"], ["D1:3", "D2:1", "LA"],
+             ["K1", "D1:kkkrrk"], ["K1", "K2", "D1:2", "D2:3", "LA"]]
+    g1 = resp_ok + ["E:%d" % VER_UNSUPPORTED, "E:0", "E:100", "W:57", "G1"]
+    g2 = ["R:0:0:0", "R:0:0:%d" % VER_UNSUPPORTED]
+    grids = [(g1, g2, dsets)]
+    if thorough:
+        # every reaction pair with the eight shapes; every pair of counts 0..4 with the quick tier's reactions
+        grids = [(r1, r2, dsets),
+                 (g1, g2, [["D1:%d" % a_, "D2:%d" % b_] + o for a_ in range(5) for b_ in range(5) for o in ([], ["LA"], ["K1", "K2"]) if a_ + b_])]
+    for (x1, x2, ds) in grids:
+        for a in x1:
+            if eff(a) == "N" or a == "O":
+                continue        # a silent reader gives nothing to wait for; the oversize reply is C10's
+            for b in x2:
+                for o in ds:
+                    if eff(b) == "N" and any(x.startswith("D2") for x in o):
+                        continue
+                    add(2, a, b, o)
+    if thorough:
+        # every pattern of up to five k/r steps in which each r finds an acknowledgement to read
+        def pats(n, cur="", out_=0):
+            res = [cur] if cur else []
+            if len(cur) < n:
+                res += pats(n, cur + "k", out_ + 1)
+                if out_ > 0:
+                    res += pats(n, cur + "r", out_ - 1)
+            return res
+        for pat in pats(5):
+            for a in t1 + ["R:0:32:0", "E:100"]:
+                for b in g2:
+                    add(2, a, b, ["D1:" + pat])
+                    add(2, a, b, ["D2:" + pat, "LA"])
+                    add(2, a, b, ["D1:" + pat, "D2:" + pat])
+    for a in t1:
+        for o in (["D1:2", "P=" + probe], ["D1:3", "D2:2", "P=FE110," + probe], ["D1:2", "D2:2", "V212"], ["D1:2", "EN1"],
+                  ["D1:2", "D2:2", "ES2"], ["D2:3", "LA", "EN0"], ["K1", "D1:4", "P=" + mixed[1]]):
+            add(2, a, "R:0:0:0", o)
+    for o in (["D1:2"], ["D1:2", "D2:2", "LA"]):
+        add(1, "R:64:64:0", "R:0:0:0", o)
+        add(1, "E:%d" % VER_UNSUPPORTED, "R:0:0:0", o)
     # grid 4 — version bytes whose low five bits are not zero (the decoder must ignore them)
     if thorough:
         extra = [(cb, mb) for cb in range(256) for mb in range(256) if (cb & 31) or (mb & 31)]
@@ -171,7 +220,7 @@ def sessions(tier):
         extra = [((c << 5) | 31, (m << 5) | (1 + (c * 8 + m) % 31)) for c in range(8) for m in range(8)]
     for cb, mb in extra:
         add(2, "R:%d:%d:0" % (cb, mb), "R:0:0:0")
-    return [WITNESS, DOWNGRADE_KA, GREETING_11, EARLY_NOWAIT, TRAFFIC_110] + main, over, sweep_desc
+    return [WITNESS, DOWNGRADE_KA, GREETING_11, EARLY_NOWAIT, TRAFFIC_110, HELD_ACKS] + main, over, sweep_desc
 
 
 EARLY_TYPE = {"EN": 64, "ES": 3}   # SendNoWait(ENABLE_EVENTS_AND_REPORTS) / SendMessage(SET_READER_CONFIG)
@@ -182,6 +231,24 @@ def early_of(opts):
         if len(o) == 3 and o[:2] in EARLY_TYPE:
             return o
     return None
+
+
+def held_of(opts):
+    """D1:<n>|<pattern>, D2:…: what the reader does, without otherwise reading, before its answer to the query / the
+    switch (k = send a KEEPALIVE, r = read one frame; <n> = n times k).  Returns ((a1, d1), (a2, d2)): a = acknowledgements
+    read before the answer goes out, d = KEEPALIVEs still unacknowledged (to the reader's knowledge) when it goes out"""
+    out = {"D1": (0, 0), "D2": (0, 0)}
+    for o in opts:
+        if o[:3] in ("D1:", "D2:"):
+            pat = "k" * int(o[3:]) if o[3:].isdigit() else o[3:]
+            a = d = 0
+            for c in pat:
+                if c == "k":
+                    d += 1
+                elif c == "r" and d > 0:
+                    a, d = a + 1, d - 1
+            out[o[:2]] = (a, d)
+    return out["D1"], out["D2"]
 
 
 def traffic_of(opts):
@@ -217,7 +284,9 @@ def model_request(line, prestamp, override):
         e = early_of(opts)
         if e:   # the early caller's message is the first thing written once Connect has proceeded
             later = "Q%d: %s" % (EARLY_TYPE[e[:2]], later)
-    return "%d %d %s %d %d %s %s %s" % (prestamp, override, f[1], "K1" in opts, "K2" in opts, g(f[2]), g(f[3]), later)
+    (a1, d1), (a2, d2) = held_of(opts)
+    # acknowledgements the reader reads before its answer goes out are, for the model, acknowledged at once
+    return "%d %d %s %d+%d %d+%d %s %s %s" % (prestamp, override, f[1], ("K1" in opts) + a1, d1, ("K2" in opts) + a2, d2, g(f[2]), g(f[3]), later)
 
 
 def frames(s):
@@ -339,17 +408,29 @@ def judge(cmax, r1, r2, ob, opts=()):
                       "the client settled on version %d but its version is %d after the later traffic (no renegotiation took place)" % (ob["cver"], ob["cver_end"])))
         req = [f for f in allf if f[1] not in (46, 47, 72)]
         ack = [f for f in after if f[1] == 72]
+        judged = ack
+        held = ob.get("held", 0)
+        if held and after and after[0][1] == 72:
+            # the reader sent KEEPALIVEs and its last negotiation answer while it was not reading: the write
+            # of the first acknowledgement was under way (header on its way, net.Pipe) when that answer was
+            # sent, i.e. during negotiation (compared with the model only, DESIGN §7); every further one was
+            # WRITTEN after negotiation had ended and must carry the negotiated version
+            judged = ack[1:]
         if [f for f in req if f[0] != want]:
             v.append(("request-frames-not-negotiated-version",
                       "after settling on version %d the request frames carry version bits %s (requests %s)" % (want, sorted(set(f[0] for f in req)), req)))
-        if [f for f in ack if f[0] != want]:
+        if [f for f in judged if f[0] != want]:
             v.append(("ack-frames-not-negotiated-version",
-                      "after settling on version %d the keep-alive ack carries version bits %s" % (want, [f[0] for f in ack])))
+                      "after settling on version %d the keep-alive ack carries version bits %s%s" % (
+                          want, [f[0] for f in judged],
+                          " (acknowledgements written after negotiation had ended; the reader had sent %d KEEPALIVEs with its last "
+                          "negotiation answer while it was not reading; the one whose write was already under way is not counted)" % held if held else "")))
         nack = 2 if "LA" in opts else 1
         nreq = 3 if early_of(opts) else 2
         tr = traffic_of(opts)
         if tr is not None:
             nack, nreq = tr.count("a"), len(tr) - tr.count("a")
+        nack += held
         if len([f for f in allf if f[1] not in (46, 47, 72)]) != nreq or len(ack) != nack:
             v.append(("later-traffic-missing", "expected %d application frames and %d ack(s) after negotiation, saw %s" % (nreq, nack, after)))
     return v
@@ -359,7 +440,8 @@ def project_go(line, r1):
     f = line.split()
     if len(f) < 10:
         return None
-    ob = dict(sid=f[0], outcome=f[1], cver=int(f[2]), before=frames(f[3]), after=frames(f[4]), aux=f[5:9], cver_end=int(f[9]), raw=line)
+    ob = dict(sid=f[0], outcome=f[1], cver=int(f[2]), before=frames(f[3]), after=frames(f[4]), aux=f[5:9], cver_end=int(f[9]), raw=line,
+              held=int(f[10][1:]) if len(f) > 10 and f[10][:1] == "h" and f[10][1:].isdigit() else 0)
     return ob
 
 
@@ -390,6 +472,7 @@ def run(tier, seed, replay=None):
         "the scripted reader (harness/llrp/c06_test.go, own frame code) and net.Pipe deliver bytes faithfully; 'frames before/after the outcome' relies on net.Pipe writes completing only when read",
         "reader reactions are the finite set enumerated here (version bytes v<<5 for v in 0..7 + low-bit variants, the swept status codes, the listed wrong types, one oversize size, three undecodable payloads, silence; at most one KEEPALIVE at each of the two points inside negotiation); the theorems quantify over all reactions and any number of keep-alives symbolically",
         "an ERROR_MESSAGE carrying status Success, undecodable and missing replies, and the version of acknowledgements written DURING negotiation are compared with the model only (the property text does not name them)",
+        "a frame is 'sent' when the write loop writes it: of the acknowledgements a reader finds after it had stopped reading around its last negotiation answer, the first (its write was under way on net.Pipe when the answer was sent) counts as written during negotiation, the others as written afterwards; 'the client has acted on the answer' is observed as Connect proceeding/returning or Client.version changing (else 25 ms)",
         "a 'wrong type' reply of a type the tree never delivers as a reply (probed: KeepAlive/ROAccessReport/ReaderEventNotification after fix 6decaf2) is the no-reply reaction",
         "the oversize reply to GET_SUPPORTED_VERSION is property C10's (defect F4); a crash there is noted, not judged here",
         "SetProtocolVersion payload format (raw version number) is recorded, not judged (DESIGN §7)",
@@ -477,15 +560,15 @@ def run(tier, seed, replay=None):
         f = line.split()
         shape = [o for o in opts if not o.startswith("T")]
         key = "cmax=%d r1=%s r2=%s %s" % (cmax, kind(r1), kind(r2),
-                                          "+".join("traffic" if o.startswith("P=") else "V" if o.startswith("V") else o for o in shape) or "plain")
+                                          "+".join("traffic" if o.startswith("P=") else "V" if o.startswith("V") else o[:2] if o[:3] in ("D1:", "D2:") else o for o in shape) or "plain")
         dist[key] = dist.get(key, 0) + 1
         mo_t, mo_c = project_model(mt), project_model(mc)
         replay_d = dict(kind="session", correspondence="C06/negotiate-vs-Connect", cases=[line], observed=g,
                         model_today=mt, model_conforming=mc, demanded=demanded(cmax, r1, r2),
                         how="request line of harness/llrp/c06_test.go: <sid> <client max> <reaction to GET_SUPPORTED_VERSION> <reaction to SET_PROTOCOL_VERSION> "
                             "[T<ms> client timeout] [K1|K2: KEEPALIVE while the query|switch is unanswered] [LA: after negotiation ack first] "
-                            "[P=<steps>: traffic script after negotiation: a = keep-alive, <M|F|N><S|X<st>|E<st>|W|N> = request via SendMessage|SendFor|SendNoWait answered with success | status in response | status in ERROR_MESSAGE | wrong type | nothing] [V<g><n><l>: header versions the reader uses for greeting / during / after negotiation] [EN|ES 0|1|2: early SendNoWait|SendMessage before Connect | during query | during switch]; "
-                            "observed: <outcome> <Client.version> <frames before outcome> <frames after> (version:type:payload)")
+                            "[D1:<n>|D2:<n>: the reader sends n KEEPALIVEs and then its answer to the query|switch WITHOUT reading, and reads again only when the client has acted on the answer] [P=<steps>: traffic script after negotiation: a = keep-alive, <M|F|N><S|X<st>|E<st>|W|N> = request via SendMessage|SendFor|SendNoWait answered with success | status in response | status in ERROR_MESSAGE | wrong type | nothing] [V<g><n><l>: header versions the reader uses for greeting / during / after negotiation] [EN|ES 0|1|2: early SendNoWait|SendMessage before Connect | during query | during switch]; "
+                            "observed: <outcome> <Client.version> <frames before outcome> <frames after> (version:type:payload) … h<KEEPALIVEs sent unread with the last negotiation answer>")
         if ob is None or mo_t is None or mo_c is None:
             res.violation("harness-answer", "unreadable answer for %s: go=%r model=%r" % (line, g, mt), replay_d, False)
             continue
@@ -519,6 +602,8 @@ def run(tier, seed, replay=None):
                 ("greeting-at-1.1", f[0] == "greeting-1.1"),
                 ("early-sendnowait-during-query", f[0] == "early-nowait"),
                 ("traffic-after-error-110", f[0] == "traffic-110"),
+                ("acks-held-back-by-a-reader-that-stops-reading", f[0] == "held-acks"),
+                ("acks-held-back-at-both-points-of-a-downgrade", cmax == 2 and r1 == "R:64:32:0" and r2 == "R:0:0:0" and shape == ["D1:2", "D2:2"]),
                 ("traffic-mixed", cmax == 2 and r1 == "R:64:32:0" and any(o.startswith("P=FS,a,FE110") for o in opts) and "K1" in opts),
                 ("early-sendmessage-before-connect", cmax == 2 and r1 == "R:32:64:0" and r2 == "R:0:0:0" and shape == ["ES0"])]
         for name, cond in want:
@@ -542,7 +627,7 @@ def run(tier, seed, replay=None):
     res.notes.append("types never delivered as replies by this tree (probed): %s" % sorted(NEVER_REPLY))
     res.coverage.update(
         evaluations=n, distinct_nontrivial=len(nontriv),
-        rule="the union of seven completely enumerated grids. (1) reactions: client max {1.0.1, 1.1} x reaction to GET_SUPPORTED_VERSION "
+        rule="the union of eight completely enumerated grids. (1) reactions: client max {1.0.1, 1.1} x reaction to GET_SUPPORTED_VERSION "
              "(response with current,max in 0..7 and status in {0,110,100}; ERROR_MESSAGE with those statuses; wrong types; oversize; three undecodable "
              "payloads; silence) x reaction to SET_PROTOCOL_VERSION (same kinds). (2) status codes (%s), one session each in the four places a status "
              "can stand: ERROR_MESSAGE to the query, status of the query's response, status of the switch's response, ERROR_MESSAGE to the switch. "
@@ -556,7 +641,10 @@ def run(tier, seed, replay=None):
              "(7) all subsequent traffic: after negotiation one request through SendFor / SendMessage / SendNoWait whose answer is success, every swept "
              "status in the expected response and in an ERROR_MESSAGE, a wrong type, or nothing, followed by ack, SendMessage, SendFor, ack; plus three "
              "mixed scripts of 10-14 steps (also with keep-alives inside negotiation and other header versions) x five readers x client max; every "
-             "frame's version bits are judged. "
+             "frame's version bits are judged. (8) a reader that stops reading: n KEEPALIVEs (1..3; thorough 0..4 at each point) and the answer to the query and/or "
+             "the switch are sent while nothing is read, reading resumes when the client has acted on the answer — the acknowledgements are written "
+             "after the answer took effect — x {64 successful responses, E:110, E:0, E:100, wrong type, undecodable} x {switch accepted, refused} "
+             "(thorough: all reactions) x order after negotiation, also with some frames read in between (patterns of k = KEEPALIVE / r = read one frame before the answer), + combinations with keep-alives acknowledged at once, traffic scripts, early callers, header versions. "
              "'Before the end of negotiation' = read by the reader before it sent its last negotiation answer. Each session = Connect on net.Pipe, then two SendMessage requests and one or two KEEPALIVEs "
              "in the stated order, every frame's version bits recorded; non-trivial iff client max is 1.1 (negotiation takes place); distinct by "
              "(client max, reaction 1, reaction 2, keep-alive points, order)" % sweep_desc,
